@@ -186,9 +186,31 @@ def run_k2(facts, ctx, inv=None, watch=()):
         planes = StructV(planes_adt, {"aircrafts": OpaqueV("table", ("table",))})
         pref = ref_to(I, st, planes, True)
         ub = facts.one("update_aircraft")
+        st_before = st.copy()
+        n_stores0 = len(res.stores)
         st, _ = I.run_body(st, ub, [pref, dlref, mref, df, icao, aref])
         res.post_update = I.side.get("update_row")
         res.post_create = I.side.get("create_row")
+        if I.side.get("entry_style") == "match" or res.post_update is None:
+            # the updater branches on the table itself (match on Entry, get_mut / insert, contains_key): interpret it once
+            # per hypothesis - address already in the table / not yet - so that the updated row is not merged with the
+            # untouched one of the other arm
+            del res.stores[n_stores0:]
+            I.side["table_mode"] = "present"
+            I.side.pop("update_row", None)
+            sp = st_before.copy()
+            sp, _ = I.run_body(sp, ub, [pref, dlref, mref, df, icao, aref])
+            res.post_update = I.side.get("update_row") or I.cell_get(sp, row_cell)
+            I.side["update_state"] = sp
+            n_stores1 = len(res.stores)
+            I.side["table_mode"] = "absent"
+            I.side.pop("create_row", None)
+            sa = st_before.copy()
+            sa, _ = I.run_body(sa, ub, [pref, dlref, mref, df, icao, aref])
+            del res.stores[n_stores1:]
+            res.post_create = I.side.get("create_row")
+            I.side["table_mode"] = "present"
+            st = sp
         res.final_state = st
         res.post_update2 = None
         if ctx.get("twice") and res.post_update is not None:
@@ -197,8 +219,9 @@ def run_k2(facts, ctx, inv=None, watch=()):
             st2 = I.side.get("update_state") or st
             I.cell_set(st, row_cell, res.post_update)
             res.stores_first = list(res.stores)
+            I.side.pop("update_row", None)
             st, _ = I.run_body(st, ub, [pref, dlref, mref, df, icao, aref])
-            res.post_update2 = I.side.get("update_row")
+            res.post_update2 = I.side.get("update_row") or (I.cell_get(st, row_cell) if I.side.get("table_mode") == "present" else None)
             res.stores = res.stores_first
     except Diverge as e:
         res.diverged = "definite panic / no return in %s" % e
